@@ -147,12 +147,13 @@ def build_assembly(case, idx):
 
 
 def span_bound(b, info_list):
-    """File span of b residues plus one line, for the widest geometry."""
+    """File span of b residues plus two lines (a reader may align its reads to
+    line starts on either side), for the widest geometry."""
     worst = 0
     for i in info_list:
         rpl = max(1, i.residues_per_line)
         term = max(0, i.max_line_length - i.residues_per_line)
-        worst = max(worst, b + (b // rpl + 2) * term + i.max_line_length)
+        worst = max(worst, b + (b // rpl + 3) * term + 2 * i.max_line_length)
     return worst
 
 
@@ -264,11 +265,7 @@ def one_buffer(case, root, b, world, want_files=True):
     fi2.get_gap_iter = mon_gap
     FastaStream(sink, fi2, line_length=line_length).write_assembly(out_asm)
     wbound = b + -(-b // line_length) + line_length + 1
-    for sz in sink.sizes:
-        if sz > wbound and sz > 0:
-            # header lines are exempt: they are ">" + name + newline
-            pass
-    # writes larger than the bound are only legal for header lines
+    # writes larger than the bound are only legal for header lines (">" + name + newline)
     names = {(">" + s.name + "\n").encode() for s in out_asm.scaffolds}
     pos = 0
     data = bytes(sink.data)
